@@ -62,8 +62,11 @@ package dochandler
 //@   requires dhOK(r) && op != nil
 //@   ensures (result == nil ==> added == old(added) + 1 && lastAddedSuffix == op.UniqueSuffix && lastAddedVersion == versionTime) && (result != nil ==> added == old(added))
 //@   modifies added, lastAddedSuffix, lastAddedVersion
+// ghost: number of operations that went through validateOperation
+//@ ghost validations int
 //@ func (*DocumentHandler).validateOperation
 //@   requires dhOK(r) && op != nil && pv != nil
+//@   sets validations = validations + 1
 //@ func (*DocumentHandler).getCreateResponse
 //@   requires dhOK(r) && op != nil && pv != nil
 //@   closure 1
@@ -75,6 +78,10 @@ package dochandler
 //@     requires r != nil && r.metrics != nil
 //@   end
 //@   requires dhOK(r)
+//   an operation refused at intake leaves no trace: it is validated before it is put into the unpublished-operation
+//   store and before it is queued
+//@   atcall addOperationToUnpublishedOpsStore validations == old(validations) + 1
+//@   atcall addToBatch validations == old(validations) + 1
 //@   results res, err
 //@   ensures added <= old(added) + 1
 //@   ensures err == nil ==> added == old(added) + 1
@@ -83,7 +90,7 @@ package dochandler
 //@   ensures added == old(added) + 1 ==> uStored <= old(uStored) + 1 && uDeleted == old(uDeleted)
 //   C20 glue: the operation is parsed by the parser of the requested version and queued under that version's genesis time
 //@   ensures added == old(added) + 1 ==> verOK(r.protocol, protocolVersion) && parseOK2(parserOf(verOf(r.protocol, protocolVersion)), r.namespace, operationBuffer) && lastAddedVersion == genesisOf(verOf(r.protocol, protocolVersion))
-//@   modifies uStored, uDeleted, lastPutOp, lastDelOp, added, lastAddedSuffix, lastAddedVersion, lastResolved
+//@   modifies uStored, uDeleted, lastPutOp, lastDelOp, added, lastAddedSuffix, lastAddedVersion, lastResolved, validations
 
 // ---- C19 / C20: the transformation info handed to the document transformer ----
 // published documents: id as requested, published = true, canonical id <namespace>[:<canonical ref>]:<suffix>, and the
@@ -106,6 +113,11 @@ package dochandler
 //
 //@ func (*DocumentHandler).resolveRequestWithID
 //@   requires dhOK(r) && r.processor != nil && pv != nil
+//   a DID with at least one published operation is presented as published (with its canonical id), whatever is pending;
+//   only a DID known from unpublished operations alone is presented as unpublished
+//@   atcall GetTransformationInfoForPublished len(internalResult.PublishedOperations) > 0
+//@   atcall GetTransformationInfoForUnpublished len(internalResult.PublishedOperations) == 0
+//@   atcall TransformDocument rm == internalResult
 //@   modifies lastResolved
 //@ func (*DocumentHandler).resolveRequestWithInitialState
 //@   requires dhOK(r) && pv != nil
